@@ -219,6 +219,16 @@ func (env *SpecEnv) eval(x ast.Expr) (SpecVal, error) {
 		if v, ok := env.vars[n.Name]; ok {
 			return v, nil
 		}
+		if n.Name == "exiting" {
+			// true while the deferred calls of the function under contract run (RunDefers), false in its body
+			b := tFalse
+			for fr := env.f; fr != nil; fr = fr.parent {
+				if fr.inDefers > 0 && fr.parent == nil {
+					b = tTrue
+				}
+			}
+			return SpecVal{T: b, Typ: types.Typ[types.Bool]}, nil
+		}
 		if env.pkg != nil {
 			switch o := env.pkg.Scope().Lookup(n.Name).(type) {
 			case *types.Const:
@@ -248,6 +258,9 @@ func (env *SpecEnv) eval(x ast.Expr) (SpecVal, error) {
 		}
 		return env.field(base, n.Sel.Name)
 	case *ast.UnaryExpr:
+		if n.Op == token.AND {
+			return env.addrOf(n.X)
+		}
 		v, err := env.eval(n.X)
 		if err != nil {
 			return SpecVal{}, err
@@ -426,6 +439,9 @@ func (env *SpecEnv) field(base SpecVal, name string) (SpecVal, error) {
 		ft := st.Field(i).Type()
 		if isPtr {
 			lt := e.loadAddr(env.st, e.fieldLoc(t, i, base.T))
+			if env.quantDepth == 0 && env.f != nil {
+				e.entryClosure(env.f.topFrame().entry, e.fieldLoc(t, i, base.T))
+			}
 			if env.quantDepth == 0 && lt.Sort == SSlice {
 				// A3 for slices resident in the heap (the code-side loads assume the same)
 				e.assume(e.sliceWF(lt))
@@ -732,6 +748,14 @@ func (env *SpecEnv) callExpr(n *ast.CallExpr) (SpecVal, error) {
 			}
 			if v.T.Sort == e.sortOf(t) {
 				return SpecVal{T: v.T, Typ: t, V: v.V}, nil
+			}
+			if v.T.Sort == SSlice && e.sortOf(t) == SStr && env.quantDepth == 0 {
+				// string(b): the same term the encoder builds for the code's conversion (content of b in this state)
+				hn, hs := e.elemHeapName(SBV8)
+				h := e.heap(env.st, hn, hs)
+				e.predeclare("strof", fmt.Sprintf("(declare-fun strof (%s (_ BitVec 64) (_ BitVec 64)) Str)", arraySort(SBV64, SBV8)))
+				r := app(SStr, "strof", sel(h, sReg(v.T)), sOff(v.T), sLen(v.T))
+				return SpecVal{T: r, Typ: t}, nil
 			}
 			return SpecVal{}, fmt.Errorf("unsupported conversion to %s", t)
 		}
@@ -1144,4 +1168,39 @@ func (env *SpecEnv) specFunc(sf *SpecFunc, args []SpecVal) (SpecVal, error) {
 		return SpecVal{T: sym(fn, rs), Typ: rtp}, nil
 	}
 	return SpecVal{T: app(rs, fn, ts...), Typ: rtp}, nil
+}
+
+// addrOf evaluates &x for the two shapes the code hands to callees: &s[i] (the same opaque interior pointer the
+// encoder builds for an IndexAddr on a slice) and &v for a local that lives in memory (its allocation).
+func (env *SpecEnv) addrOf(x ast.Expr) (SpecVal, error) {
+	e := env.e
+	switch n := x.(type) {
+	case *ast.ParenExpr:
+		return env.addrOf(n.X)
+	case *ast.IndexExpr:
+		base, err := env.eval(n.X)
+		if err != nil {
+			return SpecVal{}, err
+		}
+		sl, ok := base.Typ.Underlying().(*types.Slice)
+		if !ok || base.T.Sort != SSlice {
+			return SpecVal{}, fmt.Errorf("&x[i]: x is not a slice")
+		}
+		iv, err := env.eval(n.Index)
+		if err != nil {
+			return SpecVal{}, err
+		}
+		if env.quantDepth > 0 {
+			return SpecVal{}, fmt.Errorf("&x[i] inside a quantifier is not supported")
+		}
+		hn, _ := e.elemHeapName(e.sortOf(sl.Elem()))
+		v := Value{Addr: &Addr{heap: hn, keys: []Term{sReg(base.T), bvAdd(sOff(base.T), conv64(iv))}, typ: sl.Elem()}}
+		return SpecVal{T: e.valTerm(v, types.NewPointer(sl.Elem())), Typ: types.NewPointer(sl.Elem())}, nil
+	case *ast.Ident:
+		if v, ok := env.vars["&"+n.Name]; ok {
+			return v, nil
+		}
+		return SpecVal{}, fmt.Errorf("&%s: not a local variable that lives in memory", n.Name)
+	}
+	return SpecVal{}, fmt.Errorf("unsupported operand of &")
 }
